@@ -65,7 +65,19 @@ pub fn run_c11(ctx: &Ctx) -> i32 {
         let u = if matches!(cfg, Cfg::Ov(_)) { u4() } else { u22() };
         spaces.push(TreeSpace::new("C11", cfg, Order::Asc, alphabet(u, &[b"x"], 1, true), Domain::Typed, empty_init(true), mon.clone()));
     }
+    // multi-byte and prefix-sharing names (re-rooting by byte offsets), and an overlay whose lower
+    // layer holds the subtrees that are removed / copied / moved
+    let mb = Universe::new("U_mb{é,é/a,éa,éa/é}", &["/é", "/é/a", "/éa", "/éa/é"]);
+    spaces.push(TreeSpace::new("C11", Cfg::Mem, Order::Asc, alphabet(mb.clone(), &[b"x"], 1, true), Domain::Typed, empty_init(true), mon.clone()));
+    spaces.push(TreeSpace::new("C11", Cfg::Phys, Order::Asc, alphabet(mb.clone(), &[b"x"], 1, true), Domain::Typed, empty_init(true), mon.clone()));
+    spaces.push(TreeSpace::new("C11", Cfg::Mem, Order::Asc, alphabet(u_names_small(), &[b"x"], 1, true), Domain::Typed, empty_init(true), mon.clone()));
+    spaces.push(TreeSpace::new("C11", Cfg::Ov(vec![Cfg::Mem, Cfg::Mem]), Order::Asc, alphabet(u3(), &[b"x"], 1, true), Domain::Typed, layerings(&[0, 1], &u3().paths, false), mon.clone()));
+    // three levels: what is below a lower-layer subdirectory of the directory that is removed / moved
+    let chain = Universe::new("U_chain3{a,a/a,a/a/a}", &["/a", "/a/a", "/a/a/a"]);
+    spaces.push(TreeSpace::new("C11", Cfg::Ov(vec![Cfg::Mem, Cfg::Mem]), Order::Asc, alphabet(chain.clone(), &[b"x"], 1, true), Domain::Typed, layerings(&[0, 1], &chain.paths, false), mon.clone()));
     if thorough {
+        spaces.push(TreeSpace::new("C11", Cfg::Mem, Order::Asc, alphabet(u_names(), &[b"x"], 1, true), Domain::Typed, empty_init(true), mon.clone()));
+        spaces.push(TreeSpace::new("C11", Cfg::Ov(vec![Cfg::Mem, Cfg::Mem, Cfg::Mem]), Order::Asc, alphabet(u3(), &[b"x"], 1, true), Domain::Typed, layerings(&[0, 1, 2], &u3().paths, false), mon.clone()));
         spaces.push(TreeSpace::new("C11", Cfg::Mem, Order::Desc, alphabet(u23(), &[b"x"], 1, true), Domain::Typed, empty_init(true), mon.clone()));
         spaces.push(TreeSpace::new("C11", Cfg::Mem, Order::Desc, alphabet(u32(), &[b"x"], 1, true), Domain::Typed, empty_init(true), mon.clone()));
     } else {
